@@ -24,6 +24,7 @@ import (
 	"github.com/go-openapi/runtime"
 	"github.com/go-openapi/runtime/middleware"
 	"github.com/go-openapi/runtime/middleware/untyped"
+	"github.com/go-openapi/spec"
 	"github.com/go-openapi/strfmt"
 
 	"verif/gen"
@@ -794,6 +795,7 @@ func runCase(m *mon.M, c *Case) {
 				continue
 			}
 			m.Class("rejected-422")
+			structTarget(m, c, rq, d, &exp, one, dc, pc, feat)
 			continue
 		}
 		if s.ran != 1 {
@@ -812,6 +814,7 @@ func runCase(m *mon.M, c *Case) {
 			continue
 		}
 		m.Class("bound")
+		structTarget(m, c, rq, d, &exp, one, dc, pc, feat)
 	}
 	if m.WantSample() {
 		sc := Case{}
@@ -833,6 +836,114 @@ func sigTail(feat, dc, rest string) string {
 		return dc
 	}
 	return dc + "/" + rest
+}
+
+// goTypeFor is the Go type a generated struct field would have for the declaration.
+func goTypeFor(tpe, format string) reflect.Type {
+	switch tpe {
+	case "string":
+		switch format {
+		case "date":
+			return reflect.TypeOf(strfmt.Date{})
+		case "date-time":
+			return reflect.TypeOf(strfmt.DateTime{})
+		case "uuid":
+			return reflect.TypeOf(strfmt.UUID(""))
+		case "byte":
+			return reflect.TypeOf(strfmt.Base64{})
+		}
+		return reflect.TypeOf("")
+	case "integer":
+		switch format {
+		case "int8":
+			return reflect.TypeOf(int8(0))
+		case "int16":
+			return reflect.TypeOf(int16(0))
+		case "int32":
+			return reflect.TypeOf(int32(0))
+		}
+		return reflect.TypeOf(int64(0))
+	case "number":
+		if format == "float" {
+			return reflect.TypeOf(float32(0))
+		}
+		return reflect.TypeOf(float64(0))
+	case "boolean":
+		return reflect.TypeOf(true)
+	}
+	return nil
+}
+
+// structTarget drives the second binding entry point: UntypedRequestBinder.Bind into a struct whose
+// field has the declared Go type. It is only consulted for requests the map entry point handled as the
+// oracle expects (so that one defect is not reported twice), and judges the same expectation.
+func structTarget(m *mon.M, c *Case, rq *Req, d *gen.Param, exp *expectation, one *Case, dc, pc, feat string) {
+	if d.Type == "file" || exp.either {
+		return
+	}
+	var ft reflect.Type
+	if d.Type == "array" {
+		it := goTypeFor(d.ItemsType, d.ItemsFormat)
+		if it == nil {
+			return
+		}
+		ft = reflect.SliceOf(it)
+	} else {
+		ft = goTypeFor(d.Type, d.Format)
+	}
+	if ft == nil {
+		return
+	}
+	pj, _ := json.Marshal(gen.ParamJSON(*d))
+	var sp spec.Parameter
+	if err := json.Unmarshal(pj, &sp); err != nil {
+		return
+	}
+	st := reflect.StructOf([]reflect.StructField{{Name: "F", Type: ft}})
+	target := reflect.New(st)
+	binder := middleware.NewUntypedRequestBinder(map[string]spec.Parameter{"F": sp}, new(spec.Swagger), strfmt.Default)
+	req, ok := c.request(rq)
+	if !ok {
+		return
+	}
+	var rp middleware.RouteParams
+	if d.In == "path" {
+		rp = middleware.RouteParams{{Name: d.Name, Value: string(rq.Texts[0])}}
+	}
+	var berr error
+	pv, stk := mon.Catch(func() { berr = binder.Bind(req, rp, runtime.JSONConsumer(), target.Interface()) })
+	m.Eval(1)
+	descr := func() string {
+		db, _ := json.Marshal(d)
+		return fmt.Sprintf("struct target: decl=%s presence=%s texts=%q -> err=%v field=%s ; expected: %s", db, pc, mon.SQ(rq.Texts), berr, canonOf(target.Elem().Field(0).Interface()), expString(exp))
+	}
+	if pv != nil {
+		m.Violate("struct-target/panic/"+sigTail(feat, dc, ""), fmt.Sprintf("panic: %v ; %s\n%s", pv, descr(), stk), one)
+		return
+	}
+	if exp.reject {
+		if berr == nil {
+			m.Violate("struct-target/accepted-invalid/"+sigTail(feat, dc, literalClass(d, rq)), descr(), one)
+			return
+		}
+		m.Class("struct-rejected")
+		return
+	}
+	if berr != nil {
+		m.Violate("struct-target/refused-valid/"+sigTail(feat, dc, pc+"/"+literalClass(d, rq)), descr(), one)
+		return
+	}
+	got := canonOf(target.Elem().Field(0).Interface())
+	if got == "nil" && d.Type == "array" {
+		got = "[]"
+	}
+	for _, a := range exp.accepts {
+		if a == got {
+			m.Class("struct-bound")
+			return
+		}
+	}
+	m.Violate("struct-target/wrong-value/"+sigTail(feat, dc, pc+"/"+literalClass(d, rq)), descr(), one)
 }
 
 func firstWords(s string) string {
